@@ -103,6 +103,38 @@ def build_harness():
     _built = True
 
 
+HRACE = os.path.join(HARNESS, "bin", "harness-race")
+_built_race = False
+
+
+def build_race_harness():
+    """The same harness built with the Go race detector (needs cgo)."""
+    global _built_race
+    if _built_race:
+        return
+    build_harness()
+    e = dict(GOENV, CGO_ENABLED="1")
+    p = subprocess.run(["go", "build", "-race", "-tags", "verif", "-o", HRACE, "."], cwd=HARNESS, env=e,
+                       stdout=subprocess.PIPE, stderr=subprocess.STDOUT, text=True)
+    if p.returncode != 0:
+        raise Broken("race-enabled harness build failed:\n" + p.stdout[-3000:])
+    _built_race = True
+
+
+def harness_race(ctx, args, timeout=1800):
+    """Run the race-enabled harness; returns (output, race_reported)."""
+    build_race_harness()
+    e = dict(GOENV, GORACE="halt_on_error=0 exitcode=0")
+    try:
+        p = subprocess.run([HRACE] + [str(a) for a in args], cwd=ctx.run, env=e, timeout=timeout,
+                           stdout=subprocess.PIPE, stderr=subprocess.STDOUT, text=True)
+    except subprocess.TimeoutExpired:
+        raise Broken("race harness %s timed out" % (args[:2],))
+    if p.returncode != 0:
+        raise Broken("race harness %s failed (%d):\n%s" % (args[:3], p.returncode, p.stdout[-3000:]))
+    return p.stdout, "WARNING: DATA RACE" in p.stdout
+
+
 def harness(ctx, args, timeout=1800, env=None):
     build_harness()
     e = dict(GOENV)
@@ -253,14 +285,14 @@ _L = re.compile(r"/\\ l = (\d+)")
 
 
 def validate(ctx, module, cfg, trace, workers=6, heap_gb=3, timeout=1800, what="", env=None,
-             chunk=20000, header=0, chunk_bytes=12000000):
+             chunk=20000, header=0, chunk_bytes=12000000, stateful_ev=None):
     """V: TLC evaluates Judge on every trace line.  Returns {line_no: (ok, class, why)}.
     Big traces are validated in chunks (a 20 MB trace is >1 GB of TLC values); the first `header`
     lines (shared context such as a domain) are repeated at the top of every chunk."""
     n = count_lines(trace)
     size = os.path.getsize(trace)
-    if n <= chunk + header and size <= chunk_bytes:
-        return _validate1(ctx, module, cfg, trace, workers, heap_gb, timeout, what, env)
+    if stateful_ev or (n <= chunk + header and size <= chunk_bytes):
+        return _validate1(ctx, module, cfg, trace, workers, heap_gb, timeout, what, env, stateful_ev)
     verdicts = {}
     with open(trace) as f:
         lines = f.readlines()
@@ -287,7 +319,7 @@ def validate(ctx, module, cfg, trace, workers=6, heap_gb=3, timeout=1800, what="
     return verdicts
 
 
-def _validate1(ctx, module, cfg, trace, workers, heap_gb, timeout, what, env):
+def _validate1(ctx, module, cfg, trace, workers, heap_gb, timeout, what, env, stateful_ev=None):
     dump = ctx.fresh("dump")
     e = {"TRACE_FILE": trace}
     if env:
@@ -307,6 +339,18 @@ def _validate1(ctx, module, cfg, trace, workers, heap_gb, timeout, what, env):
         verdicts[int(ml.group(1))] = (mv.group(1) == "TRUE", mv.group(2), mv.group(3))
     os.remove(dump + ".dump")
     n = count_lines(trace)
+    if stateful_ev:
+        # lines whose ev is in stateful_ev are stepped through a state machine: TLC leaves ONE verdict for the
+        # whole run, at the line where it stopped (or one past the end): spread it over those lines
+        st_lines = [i for i, line in read_trace(trace) if json.loads(line).get("ev") in stateful_ev]
+        final = [l for l in verdicts if l > n or l in st_lines]
+        if st_lines:
+            if len(final) != 1:
+                raise Broken("stateful validation left %d final verdicts" % len(final))
+            fv = verdicts.pop(final[0])
+            where = final[0] if final[0] in st_lines else st_lines[-1]
+            for i in st_lines:
+                verdicts[i] = fv if i == where else (True, "aux", "")
     if len(verdicts) != n:
         raise Broken("TLC judged %d of %d trace lines (%s)" % (len(verdicts), n, trace))
     r = ctx.tlc_runs[-1]
